@@ -20,7 +20,7 @@ from gym_gridverse.grid_object import (
     Wall,
 )
 
-from .. import compose, dyndrive, dynmon, enc, gen, workloads
+from .. import compose, dyndrive, dynmon, enc, gen, refmodel, workloads
 from ..monitor import Patch, call_real, reach
 
 ID = 'C09'
@@ -42,7 +42,7 @@ RULE = ('case = one observed call of a transition function (alone, in a random c
         'or a call of move_obstacles with at least one obstacle; distinct by (function, deep pre-state encoding, action).')
 ASSUMPTIONS = ['reference model of pick-and-drop from the statement; multiset ignores door status by definition']
 EXHAUSTIVE_NOTE = 'held item (6 kinds) x front cell (11 kinds + outside on 4 sides, decoy key on the opposite edge) x 8 actions x 7 functions on 3x3 grids'
-REQUIRED = {'quick': {'fn.pickndrop': 3000, 'fn.move_obstacles': 1000, 'fn.actuate_box': 1000, 'exhaustive.cases': 1500,
+REQUIRED = {'quick': {'functional.steps': 400, 'fn.pickndrop': 3000, 'fn.move_obstacles': 1000, 'fn.actuate_box': 1000, 'exhaustive.cases': 1500,
                       'event.pick': 20, 'event.drop': 20, 'event.swap': 20, 'event.box_opened': 20,
                       'front.outside': 60, 'history.steps': 2000, 'history.event.pick': 3, 'history.event.drop': 1,
                       'history.event.door_opened': 1}}
@@ -191,6 +191,49 @@ def goal_histories(ctx, sink, seeds, steps):
             ctx.addset('configs', name)
 
 
+def functional_conservation(ctx, n):
+    """the same conservation through GridWorld.functional_step (copy first, then the chain): worlds holding several boxes with
+    different contents, equal keys and equal doors in several cells - the next state is, cell by cell and content by content,
+    what the reference predicts from the input state (a copy that merges equal-looking objects would not be)"""
+    names = ['move_agent', 'turn_agent', 'actuate_door', 'actuate_box', 'pickndrop']
+    chain = [{'name': n_} for n_ in names]
+    for k in range(n):
+        rng = gen.rng_for('C09functional', ctx.seed, ctx.shard, k)
+        h, w = rng.randint(2, 5), rng.randint(2, 5)
+        colors = [Color.NONE, Color.RED, Color.BLUE]
+        contents = [Key(Color.RED), Key(Color.BLUE), Floor(), Wall(), Door(Door.Status.CLOSED, Color.RED), Box(Key(Color.BLUE)), Exit()]
+        state, _ = gen.rand_state(rng, [Floor, Wall, Key, Door], colors, shape=(h, w), p_floor=0.5)
+        cells = [(y, x) for y in range(h) for x in range(w)]
+        for (y, x) in rng.sample(cells, min(len(cells), rng.randint(2, 5))):
+            state.grid[y, x] = Box(enc.obj_from_json(enc.obj_to_json(rng.choice(contents))))
+        if rng.random() < 0.3:
+            state.agent.grid_object = Box(Key(Color.RED))
+        env = compose.assemble((h, w), [Floor, Wall, Door, Key, Box, Exit], list(Color), list(Action),
+                               compose.build('transition', {'name': 'chain', 'transition_functions': chain}),
+                               compose.build('reward', {'name': 'living_reward'}), compose.build('terminating', {'name': 'reach_exit'}),
+                               compose.build('observation', {'name': 'fully_transparent', 'area': [[-1, 0], [-1, 1]]}),
+                               gen.Area((-1, 0), (-1, 1)), lambda rng=None, s=state: s)
+        cur = state
+        for t in range(4):
+            a = rng.choice(list(Action))
+            model = refmodel.ref_chain(cur, names, a)
+            before = enc.es(cur)
+            ok, res = call_real(env.functional_step, cur, a)
+            ctx.ev()
+            ctx.hit('functional.steps')
+            if not ok:
+                break
+            if enc.es(cur) != before or enc.es(res[0]) != model:
+                diff = [(i // w, i % w) for i, (p_, q_) in enumerate(zip(enc.es(res[0])[0][2], model[0][2])) if p_ != q_]
+                ctx.violation('conservation', 'functional_step.not_the_reference',
+                              f'functional_step({a.name}) on a world with several boxes: the next state differs from the reference at '
+                              f'cells {diff[:5]} (e.g. {enc.eo(res[0].grid[diff[0]]) if diff else "agent / held item"}) - objects were '
+                              f'lost, duplicated or merged by the copy', 'functional_case', {'k': [ctx.seed, ctx.shard, k]})
+                break
+            cur = res[0]
+        ctx.nontrivial(('functional', enc.es(state)))
+
+
 def run(ctx):
     from .. import custom_objects
     custom_objects.enable(cleats=True)  # user-defined object types join the generators' pool (flags, not types, must decide)
@@ -202,6 +245,7 @@ def run(ctx):
         for state, cat, rng in dyndrive.random_function_sweep(ctx, 'C09sweep', ctx.pick(160, 1600)):
             pass
         ctx.sample('sweep_state', {'state': enc.render(state), 'category': cat})
+        functional_conservation(ctx, ctx.pick(200, 3000))
         goal_histories(ctx, sink, ctx.pick(3, 20), ctx.pick(150, 500))
         dyndrive.shipped_histories(ctx, 'C09hist', ['keydoor', 'dynamic_obstacles', 'teleport', 'crossing'],
                                    ctx.pick(1, 6), ctx.pick(150, 600), history_checker(ctx),
@@ -212,7 +256,10 @@ def run(ctx):
 def replay(ctx, kind, payload):
     from .. import custom_objects
     custom_objects.enable(cleats=True)
-    if kind == 'fn_case':
+    if kind == 'functional_case':
+        ctx.seed, ctx.shard = payload['k'][0], payload['k'][1]
+        functional_conservation(ctx, payload['k'][2] + 1)
+    elif kind == 'fn_case':
         dynmon.replay_call(ctx, payload, ASPECTS)
     elif kind == 'history':
         sink = dynmon.Sink(ctx, ASPECTS)
